@@ -68,7 +68,13 @@ Proof. exact imports_closed. Qed.
 Theorem C06_wf_fk_targets : forall M order, wfM M = true -> topo M order -> wf_fk_targets (gen M order) = true.
 Proof. exact fk_targets_exist. Qed.
 
-(* determinism: generation is a function of the model; the set of tables does not depend on the emission order *)
+(* determinism: generation is a function of the class model and the emission order -- two generations from the same
+   input give the same schema, whatever was generated before (no hidden state); the implementation is compared with this
+   by generating repeatedly inside one interpreter (harness/c06.py, judge_repeat) *)
+Theorem C06_generation_is_a_function : forall M order s1 s2, s1 = gen M order -> s2 = gen M order -> s1 = s2.
+Proof. exact generation_is_a_function. Qed.
+
+(* ... and the set of tables does not depend on the emission order *)
 Theorem C06_tables_order_independent : forall M o1 o2, Permutation o1 o2 ->
   Permutation (s_tables (gen M o1)) (s_tables (gen M o2)).
 Proof. exact tables_order_independent. Qed.
@@ -109,6 +115,7 @@ Print Assumptions C06_wf_assoc_columns.
 Print Assumptions C06_wf_polymorphic.
 Print Assumptions C06_wf_imports.
 Print Assumptions C06_wf_fk_targets.
+Print Assumptions C06_generation_is_a_function.
 Print Assumptions C06_tables_order_independent.
 Print Assumptions C06_refuted_selfcoll.
 Print Assumptions C06_refuted_fkalias.
